@@ -670,6 +670,7 @@ def _run(ctx, name, n, do_model, transport_every):
             if k not in uniq:
                 uniq.add(k)
                 out.append(f)
+        out.sort(key=lambda f: f["case"].get("via") is not None)     # one witness per root cause first
         ctx.failures[:] = out
     finally:
         config.NS_PORT = old_port
